@@ -642,6 +642,13 @@ def run_parent(prop: str, tier: str, seed: int, replay: Optional[str], shards_ov
     if harness_fail:
         raise HarnessError("one or more shards failed")
 
+    # statistical clauses that only make sense over the whole run (frozen rates): judged by the parent on merged counters
+    if hasattr(mod, "post"):
+        for f in mod.post(merged, tier) or []:
+            f.setdefault("size", len(canon(f["case"])))
+            f.setdefault("count", 1)
+            f.setdefault("bucket", f["part"] + "/" + f["clause"])
+            merged["failures"][f["bucket"]] = f
     for b, f in sorted(merged["failures"].items()):
         path = _write_replay(prop, f, seed, tier)
         print(f"violated clause: {b} ({f['count']} cases): {f['detail'][:400]}")
